@@ -300,6 +300,11 @@ pub fn gen_io(rng: &mut Rng, o: &IoOpts) -> Scenario {
             projects[0].imports.push((pnames[2].into(), 2));
         }
     }
+    if np >= 2 && projects[0].name.is_some() && rng.chance(20) {
+        // import cycle: the imported project imports the root back (never referenced through it)
+        let n0 = projects[0].name.clone().unwrap();
+        projects[1].imports.push((n0, 0));
+    }
     // which projects can reference which (through the import relation, transitively loaded)
     let can_ref = |from: usize, to: usize, projects: &Vec<Project>| -> bool { from == to || projects[from].imports.iter().any(|i| i.1 == to) || (from == 0 && projects.iter().any(|_| true) && to > 0) };
     let total = rng.range(2, o.max_targets.max(2));
@@ -359,6 +364,20 @@ pub fn gen_io(rng: &mut Rng, o: &IoOpts) -> Scenario {
                     let d = format!("src/{}", name);
                     for f in ["a.c", "b.h", "notes.md", "sub/c.c", "sub/deep/d.c"].iter().take(rng.range(2, 5)) {
                         files.push(FileSpec { path: format!("{}/{}/{}", pdir, d, f), kind: FileKind::File(format!("{} {} {} v0\n", pdir, name, f)) });
+                    }
+                    if rng.chance(30) {
+                        // awkward names: equal to an extension, multi-dot, hidden, no extension
+                        for f in [".c", "x.tar.c", ".hidden.h", "Makefile", "c"].iter().take(rng.range(1, 5)) {
+                            files.push(FileSpec { path: format!("{}/{}/{}", pdir, d, f), kind: FileKind::File(format!("{} {} awkward {}\n", pdir, name, f)) });
+                        }
+                    }
+                    if rng.chance(25) {
+                        // symbolic links inside a declared directory: to a file (counts as that
+                        // file), to a directory (not descended into), dangling (nothing)
+                        files.push(FileSpec { path: format!("{}/{}/link.c", pdir, d), kind: FileKind::Symlink("a.c".into()) });
+                        files.push(FileSpec { path: format!("{}/{}/linkdir", pdir, d), kind: FileKind::Symlink("sub".into()) });
+                        files.push(FileSpec { path: format!("{}/{}/dangling.c", pdir, d), kind: FileKind::Symlink("nowhere.c".into()) });
+                        files.push(FileSpec { path: format!("{}/{}/emptydir", pdir, d), kind: FileKind::Dir });
                     }
                     if rng.chance(25) {
                         files.push(FileSpec { path: format!("{}/{}/.zinoma/planted.c", pdir, d), kind: FileKind::File("planted\n".into()) });
